@@ -132,3 +132,8 @@ package types
 //@   modifies *p, type Stat, array byte, array string, maps string []byte
 //@   effects DecodedCopying
 //@   ensures copying_decoder: cnt(DecodedCopying) == old(cnt(DecodedCopying)) + 1
+
+//@ func Stat.IsDir
+//@   property C12 C17 C01
+//@   requires s != nil
+//@   ensures result == (os.FileMode(s.Mode) & os.ModeDir != 0)
